@@ -83,3 +83,20 @@ Proof.
     rewrite Hn. cbn [andb]. reflexivity.
 Qed.
 Print Assumptions C09_readonly_in_a_definition_is_checked.
+
+(* The recorded finding, as a witness on the model (which follows the implementation here): under allow_unknown=False the
+   definition [{'type':'list','schema': {'type':'dict','schema': {'x': {'type':'integer'}}}}] accepts [{'x': 1, 'y': 2}] inside
+   an anyof -- the definition's validator runs with allow_unknown=True and the list's members inherit it -- while the same
+   rules as the field's own rules report the unknown field 'y'.  The property's "validates individually" (same options) is
+   therefore NOT what the implementation counts for containers inside definitions. *)
+Example C09_refuted_unknown_fields_inside_definition_containers :
+  let cfg := {| c_allow_unknown := VBool false; c_require_all := false; c_ignore_none := false; c_purge_unknown := false;
+                c_purge_readonly := false; c_is_child := false; c_is_normalized := false; c_root_doc := VNone;
+                c_rules_reg := []; c_schema_reg := [] |} in
+  let def := VDict [(KStr "type", VStr "list");
+                    (KStr "schema", VDict [(KStr "type", VStr "dict"); (KStr "schema", VDict [(KStr "x", VDict [(KStr "type", VStr "integer")])])])] in
+  let doc := [(KStr "a", VList [VDict [(KStr "x", VInt 1); (KStr "y", VInt 2)]])] in
+  let run s := validate_ctx current 8 {| x_cfg := cfg; x_schema := s; x_doc := doc; x_dp := []; x_sp := []; x_update := false |} in
+  run [(KStr "a", VDict [(KStr "anyof", VList [def])])] = Ok [] /\
+  match run [(KStr "a", def)] with Ok (_ :: _) => True | _ => False end.
+Proof. vm_compute. split; [reflexivity|exact I]. Qed.
